@@ -33,7 +33,7 @@ HMACS = {CA.HMAC_SHA1: 'sha1', CA.HMAC_SHA224: 'sha224', CA.HMAC_SHA256: 'sha256
 
 def plan(tier):
     return {
-        'level': 'exploration', 'shards': 16, 'budget_s': 80 if tier == 'quick' else 800,
+        'level': 'exploration', 'shards': 16, 'budget_s': 120 if tier == 'quick' else 800,
         'rule': 'product of (algorithm x key size x block mode x padding x IV supplied/generated x AAD x tag length) x '
                 'message lengths 0,1,block-1,block,block+1,1000 for Encrypt/Decrypt; every MAC algorithm; every '
                 'derivation method x hash x salt x iteration count x output length; RFC 3394 wrapping over key sizes; '
@@ -55,11 +55,11 @@ def cases(tier, seed):
         for mode in MODES:
             cs.append({'enc': [alg.name, mode.name]})
     cs += [{'mac': 0}, {'derive': 0}, {'derive': 1}, {'wrap': 0}, {'fresh': 0}]
-    cs += [{'sign': i} for i in range(2 if tier == 'quick' else 8)]
-    cs += [{'server': i} for i in range(8 if tier == 'quick' else 96)]
-    cs += [{'server_derive': i} for i in range(4 if tier == 'quick' else 24)]
-    cs += [{'server_sign': i} for i in range(3 if tier == 'quick' else 16)]
-    cs += [{'asym': i} for i in range(1 if tier == 'quick' else 4)]
+    cs += [{'sign': i} for i in range(4 if tier == 'quick' else 16)]
+    cs += [{'server': i} for i in range(32 if tier == 'quick' else 192)]
+    cs += [{'server_derive': i} for i in range(16 if tier == 'quick' else 64)]
+    cs += [{'server_sign': i} for i in range(8 if tier == 'quick' else 32)]
+    cs += [{'asym': i} for i in range(2 if tier == 'quick' else 8)]
     return cs
 
 
